@@ -62,7 +62,7 @@ func NewRequestContext(ctx context.Context, req *envoy_auth.CheckRequest) *Reque
 		}
 	}
 
-	return &RequestContext{
+	reqCtx := &RequestContext{
 		ctx:        ctx,
 		ips:        clientIPs,
 		reqMethod:  req.GetAttributes().GetRequest().GetHttp().GetMethod(),
@@ -79,6 +79,15 @@ func NewRequestContext(ctx context.Context, req *envoy_auth.CheckRequest) *Reque
 		upstreamHeaders: make(http.Header),
 		upstreamCookies: make(map[string]string),
 	}
+
+	// envoy sends the path as it appears in the request line, i.e. percent-encoded. As with the
+	// HTTP services, the pipeline sees the decoded path and the encoded form is kept as raw path.
+	if path, err := url.PathUnescape(reqCtx.reqURL.Path); err == nil {
+		reqCtx.reqURL.RawPath = reqCtx.reqURL.Path
+		reqCtx.reqURL.Path = path
+	}
+
+	return reqCtx
 }
 
 func canonicalizeHeaders(headers map[string]string) map[string]string {
